@@ -194,6 +194,21 @@ def run_case(env, c):
         return Outcome(False, hasq, ["probe_crash"], detail={"why": "memory error in the matcher", "err": e.err[-1500:], "pats": strs, "line": c["line"]})
     except probe.ProbeTimeout:
         return Outcome(True, False, ["probe_timeout_inconclusive"], inconclusive=True)
+    if why is None and len(strs) == 1:
+        # the same pattern through the editor's single-pattern entry point (rstr_make / rstr_find, which hands everything that is not a
+        # plain literal to the engine): identical answer, span and groups
+        flags = 1 if c["icase"] else 0
+        gflags = (2 if c["notbol"] else 0) | (4 if c["noteol"] else 0)
+        lineb = (c["line"] + "\n").encode("utf-8")
+        try:
+            a = p.call("rs", flags, gflags, NG, probe.hx(lineb), probe.hx(strs[0]))[0]
+            b = p.call("re", flags, gflags, NG, probe.hx(lineb), 1, probe.hx(strs[0]))[0]
+        except (probe.ProbeCrash, probe.ProbeTimeout):
+            a = b = None
+        if a and b and a[0] and b[0] and not a[1]:
+            cl.append("single_pattern_entry_point")
+            if (a[2] >= 0) != (b[1] >= 0) or (a[2] >= 0 and a[4:] != b[3:]):
+                why = "rstr_find (the editor's entry point) and rset_find disagree on a pattern that is not a plain literal: %r vs %r" % (a[2:], b[1:])
     if info.get("cut"):
         cl.append("depth_limit_hit")
     cl.append("found" if info.get("found") else "notfound")
